@@ -144,9 +144,21 @@ func (w *Worker) buildCex(s *State, label, neg, note string) *Cex {
 			}
 			return out
 		}
+		// first choice of all: instants additionally half a second off the whole seconds relative to
+		// now, so that deadlines derived from them with whole-second constants never coincide with
+		// the clock reading (a model on such a boundary flips natively as real time advances)
+		var offHalf []string
+		if len(nows) > 0 {
+			for _, t := range times {
+				offHalf = append(offHalf, "(or (= "+t+" "+zeroTime+") (= (mod (- "+t+" "+nows[0]+") 1000000000) 500000000))")
+			}
+		}
 		tiers := [][]string{cat(shape, small), cat(shape), cat(half), cat(nowsEq)}
 		if len(strShape) > 0 {
 			tiers = append([][]string{cat(shape, small, strShape), cat(shape, strShape)}, tiers...)
+		}
+		if len(offHalf) > 0 {
+			tiers = append([][]string{cat(shape, small, strShape, offHalf), cat(shape, strShape, offHalf)}, tiers...)
 		}
 		// a short attempt per tier first; when the solver did not answer in time (a loaded machine)
 		// the tiers are tried once more with a long timeout before an unshaped model is accepted
